@@ -9,7 +9,7 @@ Loss moments: lam.gamma(h) = sum_g lam_g mean_g(loss) = (1/n) sum_i (lam_{g(i)}/
 from __future__ import annotations
 
 from ..terms import NONE, T, const, const_value, contains, glob, mk, show, subterms
-from .common import (M_BGL, M_ER, M_GS, M_LAG, M_UP, Analysis, arg, calls_to, inplace_updates_of_foreign_values, is_str_const, kw,
+from .common import (M_BGL, M_ER, M_GS, M_LAG, M_UP, Analysis, arg, calls_to, inplace_updates_of_foreign_values, is_str_const, kw, pc_literals,
                      label_strips, stores_attr)
 
 SPEC_FUNCS = {"relu": glob("spec.relu"), "np": glob("numpy"), "pd": glob("pandas")}
@@ -124,6 +124,18 @@ def _check_relabel(ctx, A, rule, r, fit, sw: T, y_fallback: T, is_cls: T, X_term
     if y_red is None or w_red is None:
         ctx.ob(rule, fq, fit.node, None, "cannot identify reduction labels / weights of the fit call", construct="fit call")
         return
+    # a loop-invariant default hoisted in front of the loop: `y = Y0; for ..: if c: y = f(..)` - when every assignment to y inside the
+    # loop is under the same (loop-invariant) test c that selects it here, the value on the other branch is still Y0
+    if y_red.op == "ite" and any(x.op == "loopvar" for x in y_red.args[1:]):
+        c_ = y_red.args[0]
+        lv = y_red.args[2] if y_red.args[2].op == "loopvar" else y_red.args[1]
+        positive = lv is y_red.args[2]
+        inner = [e for e in r.events if e.kind == "store" and e.data.get("tkind") == "name" and e.data.get("name") == lv.args[0] and e.loops]
+        invariant = not contains(c_, lambda s_: s_.op in ("loopvar", "elem"))
+        guarded = bool(inner) and all(any(l is (c_ if positive else mk("not", c_)) for l in pc_literals(e.pc)) for e in inner)
+        if invariant and guarded:
+            from ..terms import substitute
+            y_red = substitute(y_red, {lv: lv.args[2]})
     b = {"w": sw, "yf": y_fallback}
     lab_specs = []
     for cmp_ in ("w > 0", "w >= 0"):
